@@ -111,6 +111,12 @@ package checks
 //     later report site of the selector loop is reached only with count <= 0 and no query error;
 // (b) the "found recording rule that generates it" downgrade is taken only for an entry that is a valid
 //     recording rule; the plain "didn't have any series" report only when no such entry was found.
+// (d) the only selectors left out because the query "has a fallback" are those of a query one of whose alternatives
+//     always returns something (`... or vector(0)`): nothing else makes a missing metric harmless.
+//@ func sourceHasFallback [C16]
+//@   ensures result <==> (exists i int :: 0 <= i && i < len(src) && src[i].AlwaysReturns)
+//@   loop 1 invariant 0 <= iter1 && iter1 <= len(src)
+//@   loop 1 invariant forall i int :: 0 <= i && i < iter1 ==> !src[i].AlwaysReturns
 //@ func SeriesCheck.Check [C16]
 //@   assumed callee-requires promapi.FailoverGroup.RangeQuery, promapi.Overlaps
 // (c) the per-rule dedupe only ever skips a selector whose full text was already handled: both the lookup and the
